@@ -8,6 +8,7 @@
 #include "vsched.h"
 #include "battery.h"
 #include "codec_common.h"
+#include "faultstreams.h"
 
 extern volatile long sch_toy_counter;
 extern void sch_toy_racy(void), sch_toy_atomic(void);
@@ -430,6 +431,101 @@ static void prefill(void *p, size_t n, int pat, const void *prev)
 	default: if (prev) memcpy(b, prev, n); else memset(b, 0x3c, n);
 	}
 }
+
+/* (c2) inflate: the decoder's verdict and output must not depend on what the inflate_state object held before
+ * isal_inflate_init / isal_inflate_reset, nor on the stream decoded before a reset. Inputs: valid streams and the
+ * stale-decode-table fault streams (incomplete code sets that use an undefined codeword), both APIs, 3 kernels.
+ * Pre-fills: 00, ff, a5, address hash, a repeating 16-bit pattern, and "the state left by decoding a valid sibling stream". */
+static void inflate_prefill_part(void)
+{
+	static const int cpus[] = { CPU_BASE, CPU_SSE, CPU_AVX2 };
+	static struct inflate_state *st, *keep;
+	static uint8_t sbuf[4000], vbuf[4000], out[8][4096];
+	if (!st) { st = malloc(sizeof *st); keep = malloc(sizeof *keep); }
+	char desc[260], vdesc[260], key[400];
+	uint64_t unit = 88000;
+	for (int which = 0; which < 2; which++)
+		for (int shape = 0; shape < 2; shape++)
+			for (int ni = 0; ni < (which ? 6 : 7); ni++)
+				for (int rem = 0; rem < 3; rem++)
+					for (int only2 = 0; only2 < 2; only2++) {
+						if (!v_mine(unit++))
+							continue;
+						if (nfail > 20 || v_deadline_hit())
+							return;
+						size_t n = fs_build(which, shape, ni, rem, only2, sbuf, sizeof sbuf, desc, sizeof desc);
+						if (!n)
+							continue;
+						/* valid sibling: the two-block stream of another removed-symbol choice decodes block 1 completely: use the prefix
+						 * property of the family - the same parameters with the FULL code set are what block 1 declares; a simple valid
+						 * stream that leaves long codes in the tables is block 1 followed by an empty final fixed block */
+						size_t vn = 0;
+						{
+							char dd[260];
+							size_t m = fs_build(which, shape, ni, rem, 0, vbuf, sizeof vbuf, dd, sizeof dd);
+							(void)m;
+							/* cut after block 1: find it by decoding with the reference */
+							static struct ri_result rr;
+							static uint8_t tmp[4096];
+							struct ri_opts o;
+							memset(&o, 0, sizeof o);
+							rr.out = tmp; rr.out_cap = sizeof tmp;
+							ref_inflate(vbuf, m, &o, &rr);
+							if (rr.nblocks >= 1) {
+								size_t endbit = rr.blk[0].bit_end;
+								struct bw w;
+								bw_init(&w, vbuf, sizeof vbuf);
+								w.bit = endbit; /* keep block 1, append an empty final fixed block */
+								vbuf[endbit >> 3] &= (uint8_t)((1u << (endbit & 7)) - 1);
+								gen_fixed(&w, 1, NULL, 0);
+								vn = bw_bytes(&w);
+							}
+							snprintf(vdesc, sizeof vdesc, "valid sibling (block 1 + empty final block)");
+						}
+						for (int ci = 0; ci < 3; ci++)
+							for (int api = 0; api < 2; api++) {
+								cpu_set_level(cpus[ci]);
+								int ret[8], bs[8];
+								size_t ol[8];
+								int np = 0;
+								for (int pf = 0; pf < 7; pf++) {
+									if (pf < 4)
+										prefill(st, sizeof *st, pf, NULL);
+									else if (pf == 4) {
+										for (size_t i = 0; i + 1 < sizeof *st; i += 2) { ((uint8_t *)st)[i] = 0x01; ((uint8_t *)st)[i + 1] = 0x2c; }
+									} else if (pf == 5) { /* state left behind by decoding the valid sibling, then reset */
+										if (!vn) continue;
+										isal_inflate_init(st);
+										st->next_in = vbuf; st->avail_in = vn; st->next_out = out[7]; st->avail_out = sizeof out[7];
+										if (api) isal_inflate(st); else isal_inflate_stateless(st);
+										isal_inflate_reset(st);
+									} else { /* the same, then a full re-initialisation */
+										if (!vn) continue;
+										isal_inflate_init(st);
+										st->next_in = vbuf; st->avail_in = vn; st->next_out = out[7]; st->avail_out = sizeof out[7];
+										if (api) isal_inflate(st); else isal_inflate_stateless(st);
+									}
+									if (pf != 5)
+										isal_inflate_init(st);
+									st->next_in = sbuf; st->avail_in = n; st->next_out = out[np]; st->avail_out = sizeof out[np];
+									ret[np] = api ? isal_inflate(st) : isal_inflate_stateless(st);
+									bs[np] = st->block_state;
+									ol[np] = st->total_out;
+									v_eval();
+									if (np && (ret[np] != ret[0] || (ret[0] >= 0 && (bs[np] != bs[0] || ol[np] != ol[0] || memcmp(out[np], out[0], ol[0]))))) {
+										snprintf(key, sizeof key, "inflate-prefill %s api=%s cpu=%s", desc, api ? "isal_inflate" : "stateless", cpu_level_name[cpus[ci]]);
+										v_violation(key, "pre-fill variant %d (0 zeros,1 ff,2 a5,3 address hash,4 pattern 012c,5 after decoding a valid sibling + reset,6 the same + init): return %d state %d %zu bytes, but %d / %d / %zu bytes on a zero-filled state",
+											    pf, ret[np], bs[np], ol[np], ret[0], bs[0], ol[0]);
+										nfail++;
+										break;
+									}
+									np++;
+								}
+								v_count("inflate_prefill_cases", 1);
+							}
+						v_nontrivial(v_mix(0x1f1 + which * 2 + shape, ni * 8 + rem * 2 + only2));
+					}
+}
 static void prefill_part(void)
 {
 	static const int lens[] = { 0, 1, 9, 300, 600, 4096, 8193, 20000 };
@@ -765,6 +861,8 @@ int main(int argc, char **argv)
 		sched_part();
 	if ((!v_part || !strcmp(v_part, "tso")) && v_shard == 0)
 		tso_part();
+	if (!v_part || !strcmp(v_part, "prefill"))
+		inflate_prefill_part();
 	if (!v_part || !strcmp(v_part, "prefill"))
 		prefill_part();
 	if (!v_part || !strcmp(v_part, "reuse"))
